@@ -317,6 +317,9 @@ def main(argv=None):
     except Exception:
         print('HARNESS-ERROR %s' % traceback.format_exc()[-2000:])
         return 2
+    if a.tier == 'thorough':
+        # the deep tier may not fit its budget: run the small structural instances first so that what gets cut is the largest size
+        cases.sort(key=lambda c: (c.get('n') or 0, c.get('k') or 0))
     deadline = time.time() + cfg['budget_s']
     jobs = [(prop, c, cfg, deadline) for c in cases]
     results = []
